@@ -24,7 +24,24 @@
 enum { O_CREATE, O_RELEASE, O_JOIN, O_TRYJOIN, O_TIMEDJOIN, O_DETACH, O_YIELD, O_CYCLES, O_NOPS };
 enum { B_QUICK, B_YIELDER, B_WAITER, B_SPAWNER, B_NKINDS };
 static const char * bname[] = { "quick", "yielder", "waiter", "spawner" };
-static const size_t stk_sz[] = { 0, 0, 16384, 24576, 32768, 65536, 69632, 131072, 262144, 16500, 20000, 33000, 70001 };   /* 0 = default stack; the last four are not page multiples (rounded up by the allocator) */
+/* 0 = default stack; 16500..70001 are not page multiples (rounded up by the allocator); 8192..12288 are the
+   smallest classes that still hold the frames of the library plus this harness (measured: at most 4.3 KiB
+   at -O0, see min_stack_room) -- one page does not, and under ASan the frames are larger, so there the
+   small classes are replaced by 16 KiB */
+#if defined(__SANITIZE_ADDRESS__)
+#define SMALL_STK(x) 16384
+#define PAINT_STACKS 0
+#elif defined(__has_feature)
+#if __has_feature(address_sanitizer)
+#define SMALL_STK(x) 16384
+#define PAINT_STACKS 0
+#endif
+#endif
+#ifndef SMALL_STK
+#define SMALL_STK(x) (x)
+#define PAINT_STACKS 1
+#endif
+static const size_t stk_sz[] = { 0, 0, 16384, 24576, 32768, 65536, 69632, 131072, 262144, 16500, 20000, 33000, 70001, SMALL_STK(8192), SMALL_STK(12288), SMALL_STK(9000) };
 #define NSTKSZ (int)(sizeof stk_sz / sizeof stk_sz[0])
 
 typedef struct tnode {
@@ -55,6 +72,7 @@ extern int (*volatile myth_verif_clock_fn)(struct timespec *);
 
 static void * expected(tnode_t * n) { return (void *)(uintptr_t)(0x9000 + n->id * 13); }
 static void * gbody(void * a);
+static volatile long stat_min_room = 1 << 30;
 
 static void canary_check(tnode_t * n, volatile uint8_t * buf) {
   for (int i = 0; i < n->canary_len; i += 61) if (buf[i] != (uint8_t)(n->id + i)) mt_fail("stack contents of thread %d corrupted at offset %d while it was suspended", n->id, i);
@@ -94,9 +112,18 @@ static void * gbody(void * a) {
   le->user = n; n->le = le;
   if (n->detach_attr || n->reaped || n->detached_called) le->reap_started = 1;
   mv_progress();
+  /* paint the unused part of this stack so that the deepest point the thread (library and harness frames
+     included) ever reaches can be read off at the end */
+  char * sp0 = __builtin_frame_address(0), * plo = le->lo;
+  int painted = PAINT_STACKS && plo && sp0 > plo + 1024 && sp0 <= le->hi;
+  if (painted) memset(plo, 0xEE, (size_t)(sp0 - 512 - plo));
   /* canary buffer on this thread's own stack */
   volatile uint8_t * buf = __builtin_alloca((size_t)n->canary_len + 16);
   void * rv = body_main(n, buf);
+  if (painted) {
+    long room = 0; while (plo + room < sp0 - 512 && (uint8_t)plo[room] == 0xEE) room++;
+    long cur = stat_min_room; while (room < cur && !__sync_bool_compare_and_swap(&stat_min_room, cur, room)) cur = stat_min_room;
+  }
   n->ended = 1; le->ended = 1;
   mv_progress();
   return rv;
@@ -116,6 +143,7 @@ static tnode_t * new_node(int kind, int k, int stk, int det, int pf) {
   n->kind = kind; n->k = k; n->stk = stk; n->detach_attr = det; n->parent_first = pf;
   size_t sz = stk_sz[stk] ? stk_sz[stk] : 131072;
   n->canary_len = (int)(sz / 4);
+  if (sz < 16384) n->canary_len = (int)(sz / 16);
   if (n->canary_len > 16384) n->canary_len = 16384;
   return n;
 }
@@ -310,6 +338,9 @@ static void run_history(mt_case * c, int prop) {
     if (fd > md) mt_fail("one worker: %ld fresh records obtained although at most %ld were ever in use at once (reaped records are not reused)", fd, md);
     if (fs > ms) mt_fail("one worker: %ld fresh default stacks obtained although at most %ld were ever in use at once", fs, ms);
   }
+  if (stat_min_room < (1 << 30)) mt_stat("min_stack_room", stat_min_room);
+  if (getenv("MT_ROOM_FAIL") && stat_min_room < atol(getenv("MT_ROOM_FAIL"))) mt_fail("room %ld", (long)stat_min_room);
+  if (stat_min_room < 768) mt_reject("a thread came within 768 bytes of the end of its stack: the harness frames need more than this stack class offers");
   mt_stat("threads", nT); mt_stat("fresh_records", fd); mt_stat("max_owned_records", md); mt_stat("fresh_stacks", fs); mt_stat("max_owned_stacks", ms);
   mt_stat("cross_worker_frees", cf); mt_stat("recycled", rc); mt_stat("late_joins", stat_late_join); mt_stat("unreaped", unreaped);
   mt_stat("tryjoin_busy", stat_tryjoin_busy); mt_stat("tryjoin_ok", stat_tryjoin_ok); mt_stat("timed_timeout", stat_timed_to); mt_stat("timed_ok", stat_timed_ok);
